@@ -18,6 +18,7 @@ import (
 	"math/rand"
 	"os"
 	"path/filepath"
+	"reflect"
 	"runtime/debug"
 	"strconv"
 	"strings"
@@ -44,8 +45,24 @@ type VarT struct {
 	T    []Piece `json:"t"`
 }
 
+// Attrs: every field of ast.Cmd / ast.Dep besides the text / callee / vars / loop definition; the
+// expansion must carry them over to each command it produces.  Platforms as written in the Taskfile.
+type Attrs struct {
+	IgnoreError bool     `json:"ignore_error,omitempty"`
+	Silent      bool     `json:"silent,omitempty"`
+	Set         []string `json:"set,omitempty"`
+	Shopt       []string `json:"shopt,omitempty"`
+	Platforms   []string `json:"platforms,omitempty"`
+	Defer       bool     `json:"defer,omitempty"`
+}
+
+func (a Attrs) zero() bool {
+	return !a.IgnoreError && !a.Silent && len(a.Set) == 0 && len(a.Shopt) == 0 && len(a.Platforms) == 0 && !a.Defer
+}
+
 // CmdT: a shell command template (Call false) or a task call template
 type CmdT struct {
+	Attrs Attrs   `json:"attrs"`
 	Call  bool    `json:"call,omitempty"`
 	Shell []Piece `json:"shell,omitempty"`
 	Task  []Piece `json:"task,omitempty"`
@@ -59,6 +76,7 @@ type KV struct {
 
 // XCmd: an expanded command: shell text, or callee + rendered call vars in order
 type XCmd struct {
+	Attrs Attrs  `json:"attrs"`
 	Call  bool   `json:"call,omitempty"`
 	Shell string `json:"shell,omitempty"`
 	Task  string `json:"task,omitempty"`
@@ -84,7 +102,6 @@ type Loop struct {
 type Entry struct {
 	Kind  string `json:"kind"` // plain | null | for
 	Plain *XCmd  `json:"plain,omitempty"`
-	Defer bool   `json:"defer,omitempty"` // plain shell entry written as `defer:`
 	Loop  *Loop  `json:"loop,omitempty"`
 	As    string `json:"as,omitempty"`
 	C     *CmdT  `json:"c,omitempty"`
@@ -104,6 +121,7 @@ type Case struct {
 	ObsCmds []XCmd   `json:"obs_cmds,omitempty"`
 	ObsDeps []XCmd   `json:"obs_deps,omitempty"`
 	Lines   []string `json:"lines,omitempty"`
+	OK      bool     `json:"ok,omitempty"` // run cases: Run returned nil
 }
 
 // ---------------------------------------------------------------- Taskfile rendering
@@ -193,6 +211,28 @@ func (b *tfBuilder) forText(l *Loop, as string) string {
 	panic("loop kind " + l.Kind)
 }
 
+// the attribute keys of a cmds / deps entry (", key: value" ...), in the forms the decoder reads them:
+// a cmd: entry takes all of them, a task: entry / a dep / a defer: entry only silent
+func attrsText(a Attrs) string {
+	var sb strings.Builder
+	if a.IgnoreError {
+		sb.WriteString(", ignore_error: true")
+	}
+	if a.Silent {
+		sb.WriteString(", silent: true")
+	}
+	if len(a.Set) > 0 {
+		sb.WriteString(", set: " + qStrs(a.Set))
+	}
+	if len(a.Shopt) > 0 {
+		sb.WriteString(", shopt: " + qStrs(a.Shopt))
+	}
+	if len(a.Platforms) > 0 {
+		sb.WriteString(", platforms: " + qStrs(a.Platforms))
+	}
+	return sb.String()
+}
+
 func varsText(vs []KV) string {
 	var p []string
 	for _, kv := range vs {
@@ -212,12 +252,15 @@ func (b *tfBuilder) entryText(e *Entry, dep bool) string {
 			if len(x.Vars) > 0 {
 				s += ", vars: " + varsText(x.Vars)
 			}
-			return s + "}"
+			return s + attrsText(x.Attrs) + "}"
 		}
-		if e.Defer {
-			return "{defer: " + q(x.Shell) + "}"
+		if x.Attrs.Defer {
+			return "{defer: " + q(x.Shell) + attrsText(x.Attrs) + "}"
 		}
-		return q(x.Shell)
+		if x.Attrs.zero() {
+			return q(x.Shell)
+		}
+		return "{cmd: " + q(x.Shell) + attrsText(x.Attrs) + "}"
 	case "for":
 		s := "{for: " + b.forText(e.Loop, e.As) + ", "
 		if e.C.Call {
@@ -232,7 +275,7 @@ func (b *tfBuilder) entryText(e *Entry, dep bool) string {
 		} else {
 			s += "cmd: " + q(tmplText(e.C.Shell))
 		}
-		return s + "}"
+		return s + attrsText(e.C.Attrs) + "}"
 	}
 	panic("entry kind " + e.Kind)
 }
@@ -288,6 +331,67 @@ func hasFiles(es []Entry) bool {
 		}
 	}
 	return false
+}
+
+// Every field of ast.Cmd / ast.Dep is accounted for by name: Cmd / Task / Vars are the body, For is the
+// loop definition (the expanded command keeps a copy that nothing reads afterwards: not compared),
+// the rest are attributes.  A field this driver does not know is reported (unknown-field) instead of
+// being ignored silently.
+var bodyFields = map[string]bool{"Cmd": true, "Task": true, "Vars": true, "For": true}
+
+func platformText(p *ast.Platform) string {
+	switch {
+	case p == nil:
+		return "<nil>"
+	case p.Arch == "":
+		return p.OS
+	case p.OS == "":
+		return p.Arch
+	}
+	return p.OS + "/" + p.Arch
+}
+
+// attrsOf reads the attribute fields of an ast.Cmd / ast.Dep value by reflection.
+func attrsOf(v reflect.Value) (a Attrs, unknown []string) {
+	t := v.Type()
+	for i := 0; i < t.NumField(); i++ {
+		name, f := t.Field(i).Name, v.Field(i)
+		if bodyFields[name] {
+			continue
+		}
+		switch name {
+		case "IgnoreError":
+			a.IgnoreError = f.Bool()
+		case "Silent":
+			a.Silent = f.Bool()
+		case "Defer":
+			a.Defer = f.Bool()
+		case "Set":
+			a.Set = append([]string(nil), f.Interface().([]string)...)
+		case "Shopt":
+			a.Shopt = append([]string(nil), f.Interface().([]string)...)
+		case "Platforms":
+			for _, p := range f.Interface().([]*ast.Platform) {
+				a.Platforms = append(a.Platforms, platformText(p))
+			}
+		default:
+			unknown = append(unknown, t.Name()+"."+name)
+		}
+	}
+	return a, unknown
+}
+
+// unknownFields: fields of ast.Cmd / ast.Dep / ast.Platform the model has no counterpart for
+func unknownFields() []string {
+	_, u1 := attrsOf(reflect.ValueOf(ast.Cmd{}))
+	_, u2 := attrsOf(reflect.ValueOf(ast.Dep{}))
+	pt := reflect.TypeOf(ast.Platform{})
+	for i := 0; i < pt.NumField(); i++ {
+		if n := pt.Field(i).Name; n != "OS" && n != "Arch" {
+			u2 = append(u2, "Platform."+n)
+		}
+	}
+	return append(u1, u2...)
 }
 
 func dumpVars(vs *ast.Vars) []KV {
@@ -360,7 +464,7 @@ func runCase(c *Case) (tf string, err error) {
 			return tf, err
 		}
 	}
-	c.ObsCmds, c.ObsDeps, c.Lines = nil, nil, nil
+	c.ObsCmds, c.ObsDeps, c.Lines, c.OK = nil, nil, nil, false
 	if c.Kind == "run" {
 		ctx, cancel := context.WithTimeout(context.Background(), 20*time.Second)
 		defer cancel()
@@ -375,9 +479,10 @@ func runCase(c *Case) (tf string, err error) {
 		}()
 		select {
 		case err := <-done:
-			if err != nil {
-				return tf, fmt.Errorf("run: %w", err)
+			if err != nil && strings.HasPrefix(err.Error(), "panic") {
+				return tf, err
 			}
+			c.OK = err == nil
 		case <-time.After(25 * time.Second):
 			return tf, fmt.Errorf("run: no result after 25s")
 		}
@@ -402,10 +507,11 @@ func runCase(c *Case) (tf string, err error) {
 			c.ObsCmds = append(c.ObsCmds, XCmd{Shell: "<nil>"})
 			continue
 		}
+		at, _ := attrsOf(reflect.ValueOf(*cmd))
 		if cmd.Task != "" {
-			c.ObsCmds = append(c.ObsCmds, XCmd{Call: true, Task: cmd.Task, Vars: dumpVars(cmd.Vars)})
+			c.ObsCmds = append(c.ObsCmds, XCmd{Attrs: at, Call: true, Task: cmd.Task, Vars: dumpVars(cmd.Vars)})
 		} else {
-			c.ObsCmds = append(c.ObsCmds, XCmd{Shell: cmd.Cmd})
+			c.ObsCmds = append(c.ObsCmds, XCmd{Attrs: at, Shell: cmd.Cmd})
 		}
 	}
 	for _, d := range t.Deps {
@@ -413,7 +519,8 @@ func runCase(c *Case) (tf string, err error) {
 			c.ObsDeps = append(c.ObsDeps, XCmd{Shell: "<nil>"})
 			continue
 		}
-		c.ObsDeps = append(c.ObsDeps, XCmd{Call: true, Task: d.Task, Vars: dumpVars(d.Vars)})
+		at, _ := attrsOf(reflect.ValueOf(*d))
+		c.ObsDeps = append(c.ObsDeps, XCmd{Attrs: at, Call: true, Task: d.Task, Vars: dumpVars(d.Vars)})
 	}
 	return tf, nil
 }
@@ -446,11 +553,19 @@ func kvsCoq(kvs []KV) string {
 	return cg.List(it)
 }
 
+func attrsCoq(a Attrs) string {
+	if a.zero() {
+		return "no_attrs"
+	}
+	return fmt.Sprintf("{| a_ignore_error := %s; a_silent := %s; a_set := %s; a_shopt := %s; a_platforms := %s; a_defer := %s |}",
+		cg.Bool(a.IgnoreError), cg.Bool(a.Silent), cg.StrList(a.Set), cg.StrList(a.Shopt), cg.StrList(a.Platforms), cg.Bool(a.Defer))
+}
+
 func xcmdCoq(x XCmd) string {
 	if x.Call {
-		return "XCall " + cg.Str(x.Task) + " " + kvsCoq(x.Vars)
+		return "XCall " + attrsCoq(x.Attrs) + " " + cg.Str(x.Task) + " " + kvsCoq(x.Vars)
 	}
-	return "XShell " + cg.Str(x.Shell)
+	return "XShell " + attrsCoq(x.Attrs) + " " + cg.Str(x.Shell)
 }
 
 func xcmdsCoq(xs []XCmd) string {
@@ -463,13 +578,13 @@ func xcmdsCoq(xs []XCmd) string {
 
 func cmdtCoq(c *CmdT) string {
 	if !c.Call {
-		return "TShell " + tmplCoq(c.Shell)
+		return "TShell " + attrsCoq(c.Attrs) + " " + tmplCoq(c.Shell)
 	}
 	it := make([]string, len(c.Vars))
 	for i, v := range c.Vars {
 		it[i] = cg.Pair(cg.Str(v.Name), tmplCoq(v.T))
 	}
-	return "TCall " + tmplCoq(c.Task) + " " + cg.List(it)
+	return "TCall " + attrsCoq(c.Attrs) + " " + tmplCoq(c.Task) + " " + cg.List(it)
 }
 
 func loopCoq(l *Loop) string {
@@ -548,6 +663,11 @@ func Main(args []string) {
 		cases = generate(o.Rand(), o.N, o.Tier, o.Seed%1000 == 0 || o.Extra["sys"] == "1")
 	}
 
+	if u := unknownFields(); len(u) > 0 {
+		obs.ImplFails = append(obs.ImplFails, common.ImplFail{Case: 0, Kind: "unknown-field",
+			Msg: "ast.Cmd / ast.Dep / ast.Platform have fields the for-loop model does not account for: " + strings.Join(u, ", ")})
+	}
+
 	var fc, mc, rc []string
 	var fcIdx, mcIdx, rcIdx []int
 	seen := map[string]bool{}
@@ -583,15 +703,20 @@ func Main(args []string) {
 					if e.C.Call {
 						obs.Count("loop:task-call")
 					}
+					countAttrs(obs, "loop-attr:", e.C.Attrs)
 				} else {
 					obs.Count("entry:" + e.Kind)
+					if e.Kind == "plain" {
+						countAttrs(obs, "plain-attr:", e.Plain.Attrs)
+					}
 				}
 			}
 		}
 		obs.Count(fmt.Sprintf("expanded:%d", min(expandedSize(c), 30)/5*5))
 		switch {
 		case c.Kind == "run":
-			rc = append(rc, fmt.Sprintf("{| fr_cmds := %s; fr_lines := %s |}", entriesCoq(c.Cmds), cg.StrList(c.Lines)))
+			rc = append(rc, fmt.Sprintf("{| fr_cmds := %s; fr_lines := %s; fr_ok := %s |}", entriesCoq(c.Cmds), cg.StrList(c.Lines), cg.Bool(c.OK)))
+			obs.Count(fmt.Sprintf("run-ok:%v", c.OK))
 			rcIdx = append(rcIdx, i)
 		default:
 			rec := fmt.Sprintf("{| fc_cmds := %s; fc_deps := %s; fc_obs_cmds := %s; fc_obs_deps := %s |}",
@@ -622,13 +747,35 @@ func Main(args []string) {
 	fmt.Fprintf(&sb, "Definition fruns : list frun := %s.\n", cg.List(rc))
 	sb.WriteString("Definition R_for_agree := Eval vm_compute in failures for_agree fcases.\nPrint R_for_agree.\n")
 	sb.WriteString("Definition R_for_mon := Eval vm_compute in failures for_mon fcases.\nPrint R_for_mon.\n")
+	sb.WriteString("Definition R_for_attrs := Eval vm_compute in failures for_attrs (fcases ++ mcases).\nPrint R_for_attrs.\n")
 	sb.WriteString("Definition R_for_map := Eval vm_compute in failures for_mon mcases.\nPrint R_for_map.\n")
 	sb.WriteString("Definition R_for_run := Eval vm_compute in failures for_run_mon fruns.\nPrint R_for_run.\n")
 	common.WriteFile(o.Out, "cases.v", sb.String())
-	idx := map[string][]int{"R_for_agree": fcIdx, "R_for_mon": fcIdx, "R_for_map": mcIdx, "R_for_run": rcIdx}
+	idx := map[string][]int{"R_for_agree": fcIdx, "R_for_mon": fcIdx, "R_for_attrs": append(append([]int{}, fcIdx...), mcIdx...), "R_for_map": mcIdx, "R_for_run": rcIdx}
 	b, _ := json.Marshal(idx)
 	common.WriteFile(o.Out, "index.json", string(b))
 	obs.Write(o.Out)
+}
+
+func countAttrs(obs *common.Obs, pre string, a Attrs) {
+	if a.IgnoreError {
+		obs.Count(pre + "ignore_error")
+	}
+	if a.Silent {
+		obs.Count(pre + "silent")
+	}
+	if len(a.Set) > 0 {
+		obs.Count(pre + "set")
+	}
+	if len(a.Shopt) > 0 {
+		obs.Count(pre + "shopt")
+	}
+	if len(a.Platforms) > 0 {
+		obs.Count(pre + "platforms")
+	}
+	if a.Defer {
+		obs.Count(pre + "defer")
+	}
 }
 
 var _ = rand.New
